@@ -112,6 +112,47 @@ pub fn c08_q_keyboard_mixed_ops() {
     kani::cover!(true);
 }
 
+/// Every Keyboard operation from an arbitrary product state (any partial frame x any prefix context
+/// x any modifier/mode state), so that assertions which only fire after *mixed* use of the input
+/// paths are reachable.  No functional assertion.
+macro_rules! c08_kb_any_state {
+    ($name:ident, $set:ty, $ctx:ident, $n:expr) => {
+        #[kani::proof]
+        #[kani::unwind(12)]
+        pub fn $name() {
+            let k: u8 = kani::any();
+            kani::assume(k <= 10);
+            let i: u8 = kani::any();
+            kani::assume(i < $n);
+            let m = any_mods();
+            let mut kb: Keyboard<Uk105Key, $set> = Keyboard::verif_from_stages(partial(k), $ctx(i), evdec(Uk105Key, &m, any_mode()));
+            let op: u8 = kani::any();
+            kani::assume(op < 6);
+            match op {
+                0 => {
+                    let _ = kb.add_bit(kani::any());
+                }
+                1 => {
+                    let _ = kb.add_word(kani::any());
+                }
+                2 => {
+                    let _ = kb.add_byte(kani::any());
+                }
+                3 => {
+                    let _ = kb.process_keyevent(KeyEvent::new(any_key(), any_state()));
+                }
+                4 => kb.clear(),
+                _ => kb.set_ctrl_handling(any_mode()),
+            }
+            let _ = kb.get_modifiers();
+            let _ = kb.get_ctrl_handling();
+            kani::cover!(op == 1 && k > 0);
+        }
+    };
+}
+c08_kb_any_state!(c08_q_keyboard_any_op_any_state_set1, ScancodeSet1, ctx1, 3);
+c08_kb_any_state!(c08_q_keyboard_any_op_any_state_set2, ScancodeSet2, ctx2, 6);
+
 macro_rules! c08_layout {
     ($short:ident, $ty:ident) => {
         pub mod $short {
